@@ -315,6 +315,23 @@ fn gen_ops(rng: &mut Rng, maxn: usize, allow_big: bool) -> (Vec<Op>, String) {
                 ops.push(Op::Edge { k: kind(rng), a: a.min(b), b: a.max(b) });
             }
         }
+    } else if shape == 98 {
+        // manytypes: more than 64 distinct data types in one graph (bit sets of types)
+        name = "manytypes";
+        let n = 66 + rng.below(15) as usize;
+        for i in 0..n {
+            let own = i % 96;
+            let far = (i + 64) % 96;
+            let (mut r, mut w) = (vec![], vec![]);
+            if rng.chance(60) { w.push(own) } else { r.push(own) }
+            if rng.chance(15) { if rng.chance(50) { w.push(far) } else { r.push(far) } }
+            ops.push(Op::Fn { tag: rng.below(3) as u32, r, w });
+        }
+        for _ in 0..rng.below(5) {
+            let a = rng.below(n as u64) as usize;
+            let b = rng.below(n as u64) as usize;
+            ops.push(Op::Edge { k: kind(rng), a: a.min(b), b: a.max(b) });
+        }
     } else {
         // wide: many roots (more than any small constant channel capacity), few edges, little conflict
         name = "wide";
@@ -430,6 +447,7 @@ struct GenChooser {
     abort_at: Option<usize>, // history mode: abandon the run at this step
     late_fail: Option<usize>, // bursts: the first `m` completions of a burst are ok, later ones fail often
     hold_back: usize, // bursts: this many in-flight functions / live FnRefs are left out of the burst
+    eager_intr: bool, // shared-state histories: send the signal early and with any strategy
 }
 
 impl GenChooser {
@@ -510,7 +528,7 @@ impl GenChooser {
                     batch.push(Act::DropStream { run: i });
                     continue;
                 }
-                if interrupting && !r.intr_sent && rng.chance(10) {
+                if (interrupting || self.eager_intr) && !r.intr_sent && rng.chance(if self.eager_intr { 30 } else { 10 }) {
                     batch.push(Act::Intr { run: i });
                 }
                 if last.starts_with("pending") {
@@ -579,7 +597,7 @@ impl GenChooser {
                 continue;
             }
             self.useless = 0;
-            if !r.intr_sent && rng.chance(if interrupting { 14 } else { 3 }) {
+            if !r.intr_sent && rng.chance(if self.eager_intr { 30 } else if interrupting { 14 } else { 3 }) {
                 batch.push(Act::Intr { run: i });
                 if rng.chance(50) {
                     continue;
@@ -615,6 +633,19 @@ impl GenChooser {
     }
 }
 
+/// Runs one stage of a case; a panic that escapes the real code there is logged as a `crash` line
+/// (the driver counts it against the property that stage belongs to) instead of ending the harness.
+fn guarded<T>(out: &mut Vec<String>, stage: &str, f: impl FnOnce() -> T) -> Option<T> {
+    match std::panic::catch_unwind(std::panic::AssertUnwindSafe(f)) {
+        Ok(v) => Some(v),
+        Err(e) => {
+            let msg = e.downcast_ref::<&str>().map(|s| s.to_string()).or_else(|| e.downcast_ref::<String>().cloned()).unwrap_or_default();
+            out.push(format!("crash stage={} msg={}", stage, msg.replace(' ', "_")));
+            None
+        }
+    }
+}
+
 /// ---------------------------------------------------------------- case execution
 struct Session {
     cfgs: Vec<RunCfg>,
@@ -622,6 +653,7 @@ struct Session {
     auto: u8,
     shared: bool, // the run's InterruptibilityState is the case-wide one, handed over with reborrow()
     late: bool,   // pair sessions: the second run is created later, by a `start:1` action
+    chain: usize, // auto mode 4: the function whose completion wakes function 0
     script: Option<Vec<Vec<Act>>>, // None = generate
 }
 
@@ -641,20 +673,60 @@ fn run_case(
     for op in ops {
         out.push(op.line());
     }
+    // a third of the cases run everything that follows on a value that held ANOTHER graph (the same
+    // functions with every edge reversed) and was then overwritten with `clone_from` (deterministic in
+    // the case id, so a replay takes the same path)
+    let id_hash = id.bytes().fold(0xcbf29ce484222325u64, |h, c| (h ^ c as u64).wrapping_mul(0x100000001b3));
+    let other_first: Option<fn_graph::FnGraph<TestFn>> = if id_hash % 3 == 1 && !id.starts_with('k') {
+        let rev_ops: Vec<Op> = ops
+            .iter()
+            .map(|o| match o {
+                Op::Edge { k, a, b } => Op::Edge { k: *k, a: *b, b: *a },
+                Op::Edges { k, pairs } => Op::Edges { k: *k, pairs: pairs.iter().map(|(a, b)| (*b, *a)).collect() },
+                f => f.clone(),
+            })
+            .collect();
+        let r = std::panic::catch_unwind(std::panic::AssertUnwindSafe(|| {
+            let (b0, _) = apply_ops(&rev_ops, "");
+            build(b0).0
+        }));
+        r.ok().flatten()
+    } else {
+        None
+    };
     let (b, res) = apply_ops(ops, "");
     // interleave: protocol wants `res` after each op; emit them in order after the ops block
     out.extend(res);
     let t0 = std::time::Instant::now();
     let (g, built) = build_for(id, ops, b);
-    out.push(built);
-    out.push(format!("timing build_ms={}", t0.elapsed().as_millis()));
+    let build_ms = t0.elapsed().as_millis();
     let mut g = match g {
         Some(g) => g,
         None => {
+            out.push(built);
+            out.push(format!("timing build_ms={}", build_ms));
             out.push("end".into());
             return;
         }
     };
+    match other_first {
+        Some(mut h) => {
+            out.push("note clone_from".into());
+            match guarded(out, "clone", || {
+                h.clone_from(&g);
+                let line = rebuilt_line(&built, &h);
+                (h, line)
+            }) {
+                Some((h, line)) => {
+                    out.push(line);
+                    g = h;
+                }
+                None => out.push(built),
+            }
+        }
+        None => out.push(built),
+    }
+    out.push(format!("timing build_ms={}", build_ms));
     let mut g_other: Option<fn_graph::FnGraph<TestFn>> = None;
     let n_fns_all = ops.iter().filter(|x| matches!(x, Op::Fn { .. })).count();
     // B-eq: same ops again, and a perturbed list
@@ -668,16 +740,20 @@ fn run_case(
         let (g2, _) = build(b2);
         match g2 {
             Some(g2) => {
-                out.push(format!("eqres {} ranks_eq={}", g == g2, g.ranks() == g2.ranks()));
+                if let Some(l) = guarded(out, "eq", || format!("eqres {} ranks_eq={}", g == g2, g.ranks() == g2.ranks())) {
+                    out.push(l);
+                }
                 g_other = Some(g2);
             }
             None => out.push("eqres panic".into()),
         }
     }
-    out.extend(seq_lines(&mut g, fails));
+    if let Some(l) = guarded(out, "seq", || seq_lines(&mut g, fails)) {
+        out.extend(l);
+    }
     // the same sequential calls on a copy: `clone()`, or — when a second graph is at hand —
     // `clone_from` over a value that held a different graph
-    {
+    if let Some(l) = guarded(out, "seq", || {
         let mut h = match &g_other {
             Some(o) => {
                 let mut h = o.clone();
@@ -691,10 +767,14 @@ fn run_case(
                 h
             }
         };
-        out.extend(seq_lines(&mut h, fails));
+        seq_lines(&mut h, fails)
+    }) {
+        out.extend(l);
     }
     #[cfg(feature = "intr")]
-    out.push(ginfo_line(&g));
+    if let Some(l) = guarded(out, "ginfo", || ginfo_line(&g)) {
+        out.push(l);
+    }
     let n_fns = ops.iter().filter(|x| matches!(x, Op::Fn { .. })).count();
     let mut shared_intr: Option<SharedIntr> = None;
     let n_sessions = sessions.len();
@@ -703,27 +783,47 @@ fn run_case(
             shared_intr = Some(SharedIntr::new(s.cfgs[0].strat));
         }
         let sh = if s.shared { shared_intr.as_mut() } else { None };
-        match s.script {
+        let mut sout: Vec<String> = vec![];
+        let mut crash: Vec<String> = vec![];
+        let gref = &mut g;
+        let rng_ref = &mut *rng;
+        guarded(&mut crash, "session", || match s.script {
             Some(script) => {
                 let mut it = script.into_iter();
-                session(&mut g, &s.cfgs, s.coop, s.auto, s.late, sh, out, &mut |_v, _step| it.next());
+                session(gref, &s.cfgs, s.coop, s.auto, s.chain, s.late, sh, &mut sout, &mut |_v, _step| it.next());
             }
             None => {
+                let rng = rng_ref;
+                let out = &mut sout;
                 let burst = rng.chance(if n_fns >= 60 { 60 } else { 22 });
+                // runs that share one interrupt state are mostly run to the end (what the state carries over
+                // shows in what a LATER run does with all of its functions)
+                let allow_abort = allow_abort && !(s.shared && rng.chance(75));
                 let abort_at = if allow_abort && rng.chance(35) { Some(1 + rng.below(4) as usize) } else { None };
                 // bursts that straddle the constants a "fast path" might hide (16, 32, 64, 128): the first
                 // failure right after that many successes; a burst that leaves one or two functions out
                 let late_fail = if burst && rng.chance(40) { Some(*rng.pick(&[4usize, 8, 15, 16, 17, 31, 32, 33, 63, 64, 65, 127, 128])) } else { None };
                 let hold_back = if burst && rng.chance(40) { 1 + rng.below(2) as usize } else { 0 };
-                let mut ch = GenChooser { rng: Rng(rng.next() | 1), useless: 0, allow_abort, midpoll_intr: midpoll, steps: 0, burst, abort_at, late_fail, hold_back };
-                session(&mut g, &s.cfgs, s.coop, s.auto, s.late, sh, out, &mut |v, step| ch.choose(v, step));
+                let mut ch = GenChooser { rng: Rng(rng.next() | 1), useless: 0, allow_abort, midpoll_intr: midpoll, steps: 0, burst, abort_at, late_fail, hold_back, eager_intr: s.shared };
+                session(gref, &s.cfgs, s.coop, s.auto, s.chain, s.late, sh, out, &mut |v, step| ch.choose(v, step));
             }
+        });
+        if !crash.is_empty() {
+            // the crash line belongs to the session (its context: first / hist / pair)
+            if sout.last().map(|l| l.as_str()) == Some("endsession") {
+                sout.pop();
+            }
+            sout.extend(crash);
+            sout.push("endsession".into());
         }
+        out.extend(sout);
     }
     // a history ends with the sequential calls once more (a sequential run after any earlier runs)
     if n_sessions >= 2 {
         out.push("ctx hist".into());
-        out.extend(seq_lines(&mut g, fails));
+        if let Some(l) = guarded(out, "seq", || seq_lines(&mut g, fails)) {
+            out.extend(l);
+        }
     }
     out.push("end".into());
 }
@@ -746,7 +846,7 @@ fn gen_main(seed: u64, count: usize, kinds: &str, maxn: usize) {
         let nsess = if hist { 2 + rng.below(3) as usize } else { 1 };
         let mut prev_api: Option<String> = None;
         // histories: sometimes all runs share ONE caller-owned InterruptibilityState (reborrow)
-        let case_shared: Option<Strat> = if hist && cfg!(feature = "intr") && rng.chance(30) {
+        let case_shared: Option<Strat> = if hist && cfg!(feature = "intr") && rng.chance(40) {
             Some(match rng.below(4) { 0 => Strat::Finish, 1 => Strat::PollN(rng.below(4)), 2 => Strat::PollN(1 + rng.below(8)), _ => Strat::Ignore })
         } else {
             None
@@ -774,9 +874,9 @@ fn gen_main(seed: u64, count: usize, kinds: &str, maxn: usize) {
                 // in a third of the pair sessions the second run is created later (`start:1`), possibly
                 // after the first one was dropped with `FnRef`s still alive
                 let late = rng.chance(33);
-                sessions.push(Session { cfgs: vec![a, b], coop: rng.chance(50), auto: 0, shared: false, late, script: None });
+                sessions.push(Session { cfgs: vec![a, b], coop: rng.chance(50), auto: 0, shared: false, late, chain: 0, script: None });
             } else if has("stream") && (!has("run") || pick < 35) {
-                { let c = gen_runcfg(&mut rng, true, false); sessions.push(Session { cfgs: vec![c], coop: rng.chance(50), auto: 0, shared: false, late: false, script: None }); }
+                { let c = gen_runcfg(&mut rng, true, false); sessions.push(Session { cfgs: vec![c], coop: rng.chance(50), auto: 0, shared: false, late: false, chain: 0, script: None }); }
             } else if has("run") {
                 { let mut c = gen_runcfg(&mut rng, false, false);
                   if hist {
@@ -790,7 +890,7 @@ fn gen_main(seed: u64, count: usize, kinds: &str, maxn: usize) {
                           }
                       }
                       prev_api = Some(c.api.clone());
-                  } let auto = if rng.chance(12) { 1 + rng.below(3) as u8 } else { 0 }; let shared = case_shared.is_some() && c.has_opts(); if let (true, Some(st)) = (shared, case_shared) { c.strat = st; } sessions.push(Session { cfgs: vec![c], coop: rng.chance(50), auto, shared, late: false, script: None }); }
+                  } let auto = if rng.chance(12) { 1 + rng.below(3) as u8 } else { 0 }; let shared = case_shared.is_some() && c.has_opts(); if let (true, Some(st)) = (shared, case_shared) { c.strat = st; } sessions.push(Session { cfgs: vec![c], coop: rng.chance(50), auto, shared, late: false, chain: 0, script: None }); }
             }
         }
         let midpoll = has("midpoll");
@@ -847,7 +947,7 @@ fn replay_main(path: &str) {
                     fails = parse_csv(f);
                 }
             } else if l.starts_with("session") {
-                sessions.push(Session { cfgs: vec![], coop: l.contains("coop=1"), auto: l.split(' ').find_map(|t| t.strip_prefix("auto=")).and_then(|v| v.parse().ok()).unwrap_or(0), shared: l.contains("shared=1"), late: l.contains("late=1"), script: Some(vec![]) });
+                sessions.push(Session { cfgs: vec![], coop: l.contains("coop=1"), auto: l.split(' ').find_map(|t| t.strip_prefix("auto=")).and_then(|v| v.parse().ok()).unwrap_or(0), shared: l.contains("shared=1"), late: l.contains("late=1"), chain: l.split(' ').find_map(|t| t.strip_prefix("chain=")).and_then(|v| v.parse().ok()).unwrap_or(0), script: Some(vec![]) });
             } else if l.starts_with("run ") {
                 if let (Some(s), Some((_, cfg))) = (sessions.last_mut(), RunCfg::parse(l)) {
                     s.cfgs.push(cfg);
@@ -875,12 +975,36 @@ fn kpops_main(sizes: &str) {
     let mut lock = stdout.lock();
     for (i, s) in sizes.split(',').enumerate() {
         let n: usize = s.parse().unwrap();
-        for variant in 0..4 {
+        for variant in 0..6 {
             let mut ops = vec![];
-            for _ in 0..n {
-                ops.push(Op::Fn { tag: 0, r: vec![], w: vec![] });
+            for i in 0..n {
+                // variant 4: two conflicting writers on top of the lattice (a data edge is added whose
+                // target heads the layered part)
+                let w = if variant == 4 && i < 2 { vec![0] } else { vec![] };
+                ops.push(Op::Fn { tag: 0, r: vec![], w });
             }
-            if variant == 0 {
+            if variant == 4 {
+                let width = 3;
+                if n > 2 {
+                    for b in 2..(2 + width).min(n) {
+                        ops.push(Op::Edge { k: K::Logic, a: 1, b });
+                    }
+                }
+                for a in 2..n {
+                    for b in 2..n {
+                        if (b - 2) / width == (a - 2) / width + 1 {
+                            ops.push(Op::Edge { k: K::Logic, a, b });
+                        }
+                    }
+                }
+            } else if variant == 5 {
+                // dense containment: i contains every j > i, each container's innermost functions first
+                for a in 0..n {
+                    for b in (a + 1..n).rev() {
+                        ops.push(Op::Edge { k: K::Contains, a, b });
+                    }
+                }
+            } else if variant == 0 {
                 for a in 0..n {
                     for b in a + 1..n {
                         ops.push(Op::Edge { k: K::Logic, a, b });
@@ -918,7 +1042,7 @@ fn kpops_main(sizes: &str) {
                 }
             }
             let mut out = vec![];
-            out.push(format!("case k{}_{} feat={} shape={}", i, variant, FEAT, ["kcomplete", "klayered", "kdense+chain", "kfanchain"][variant]));
+            out.push(format!("case k{}_{} feat={} shape={}", i, variant, FEAT, ["kcomplete", "klayered", "kdense+chain", "kfanchain", "kwriters+lattice", "kcontains"][variant]));
             for op in &ops {
                 out.push(op.line());
             }
@@ -1160,7 +1284,7 @@ fn enum_main(maxn: usize, part: usize, parts: usize, streams: bool) {
                 let (g, built) = build_for(&cid, ops, b);
                 out.push(built);
                 if let Some(mut g) = g {
-                    session(&mut g, std::slice::from_ref(cfg), (gi + ci) % 2 == 1, 0, false, None, &mut out, &mut |v, step| ch.choose(v, step));
+                    session(&mut g, std::slice::from_ref(cfg), (gi + ci) % 2 == 1, 0, 0, false, None, &mut out, &mut |v, step| ch.choose(v, step));
                 }
                 out.push("end".into());
                 for l in out {
@@ -1306,7 +1430,7 @@ fn sweep_main(sizes: &str, stride: usize) {
         while k <= n {
             let api = apis[(k / stride.max(1)) % apis.len()].to_string();
             let cfg = RunCfg { api, rev: k % 2 == 0, limit: None, strat: Strat::PollN(k as u64), incl: k % 3 != 0, ord: (k % 6) as u8 };
-            sessions.push(Session { cfgs: vec![cfg], coop: true, auto: 1 + ((k / 7) % 3) as u8, shared: false, late: false, script: Some(vec![vec![Act::Intr { run: 0 }], vec![Act::Poll { run: 0 }], vec![Act::Poll { run: 0 }], vec![Act::Abort { run: 0 }]]) });
+            sessions.push(Session { cfgs: vec![cfg], coop: true, auto: 1 + ((k / 7) % 3) as u8, shared: false, late: false, chain: 0, script: Some(vec![vec![Act::Intr { run: 0 }], vec![Act::Poll { run: 0 }], vec![Act::Poll { run: 0 }], vec![Act::Abort { run: 0 }]]) });
             k += stride.max(1);
         }
         // tight stream consumers under the budget: poll-and-drop loops in one budget window
@@ -1317,11 +1441,32 @@ fn sweep_main(sizes: &str, stride: usize) {
                 script.push(vec![Act::Drain { run: 0 }]);
             }
             script.push(vec![Act::DropStream { run: 0 }]);
-            sessions.push(Session { cfgs: vec![cfg], coop: true, auto: 0, shared: false, late: false, script: Some(script) });
+            sessions.push(Session { cfgs: vec![cfg], coop: true, auto: 0, shared: false, late: false, chain: 0, script: Some(script) });
         }
         let mut out = vec![];
         let mut rng = Rng(1);
         run_case(&mut out, &format!("w{}_{}", i, n), "sweep", &ops, None, &[], sessions, &mut rng, false, false);
+        for l in out {
+            let _ = writeln!(lock, "{}", l);
+        }
+        // budget x failure: function 0 (which has a successor) fails, woken from inside the completion of
+        // the x-th of n functions that complete at their first poll — for every x, so that the failure
+        // lands on every point of tokio's budget window
+        let mut ops = ops.clone();
+        ops.push(Op::Fn { tag: 0, r: vec![], w: vec![] });
+        ops.push(Op::Edge { k: K::Logic, a: 0, b: n });
+        ops.push(Op::Edge { k: K::Logic, a: n - 1, b: n });
+        let apis = ["try_for_each_concurrent", "try_for_each_concurrent_mut", "try_for_each_concurrent_control", "try_for_each_concurrent_control_mut_with"];
+        let mut sessions = vec![];
+        let mut x = 1;
+        while x < n {
+            let api = apis[(x / stride.max(1)) % apis.len()].to_string();
+            let cfg = RunCfg { api, rev: false, limit: None, strat: Strat::Non, incl: true, ord: 0 };
+            sessions.push(Session { cfgs: vec![cfg], coop: true, auto: 4, shared: false, late: false, chain: x, script: Some(vec![vec![], vec![Act::Poll { run: 0 }], vec![Act::Poll { run: 0 }], vec![Act::Abort { run: 0 }]]) });
+            x += stride.max(1);
+        }
+        let mut out = vec![];
+        run_case(&mut out, &format!("wf{}_{}", i, n), "sweepfail", &ops, None, &[], sessions, &mut rng, false, false);
         for l in out {
             let _ = writeln!(lock, "{}", l);
         }
